@@ -170,4 +170,172 @@ theorem iter_opaque_keeps (dp : Path) (dest : Str) (o : Opts) (hd : CleanAbs des
             cases hrun
       · simp only [hwd, Bool.not_false, if_true, Prog.run, pure] at hrun; cases hrun
 
+
+/-- the object `i` is reachable as `P` and only as `P`, and is what `n0` describes but for its modification time -/
+def Kept (P : Path) (i : Ino) (n0 : Inode) (w : World) : Prop :=
+  w.fs.lookup P = some i ∧ (∀ q, w.fs.lookup q = some i → q = P) ∧ (w.fs.inode i).map eraseM = some (eraseM n0)
+
+/-- a step that keeps the frame of names that do not cover `P` keeps the object at `P` -/
+theorem Kept.framed {T : List Path} {w w' : World} {P : Path} {i : Ino} {n0 : Inode} (hk : Kept P i n0 w)
+    (hf : Framed T w.fs w'.fs) (hnc : ¬ Cov T P) : Kept P i n0 w' := by
+  have hout : OutI T w.fs i := ⟨⟨P, hk.1⟩, fun p hp => by rw [hk.2.1 p hp]; exact hnc⟩
+  exact ⟨hf.names_keep P i hk.1 hnc, fun q hq => hk.2.1 q (hf.no_capture i hout q hq),
+    by rw [hf.inode_out i hout]; exact hk.2.2⟩
+
+theorem removeAll_kept (dp : Path) (w : World) (hw : LW dp w) (q : Str) (hq : LexArg dp q)
+    (hs : pathComps q ≠ dp) (P : Path) (i : Ino) (n0 : Inode) (hl : Kept P i n0 w) (hnp : ¬ pathComps q <+: P) :
+    LW dp (step w (.removeAll q)).2 ∧ Kept P i n0 (step w (.removeAll q)).2 := by
+  have hg : SysGood dp (.removeAll q) := good_lex (s := .removeAll q) ⟨hq, hs⟩
+  have hfr := step_good_frame dp [pathComps q] w.fs hw.inv.fresh w (.removeAll q) hw hg (Framed.refl _ _)
+    (show FArg [pathComps q] q from ⟨⟨_, by simp, List.prefix_refl _⟩, hq.2⟩)
+  refine ⟨(step_good dp w (.removeAll q) hw hg).2, hl.framed hfr ?_⟩
+  rintro ⟨t, ht, hp⟩
+  simp only [List.mem_singleton] at ht
+  subst ht
+  exact hnp hp
+
+/-- the walk keeps `P` when every visited path at or above `P` (other than the marker's directory) is one the
+    layer has unpacked -/
+theorem opaqueWalk_kept (dp : Path) (dirS : Str) (unpacked : List Str) (hdr : dp <+: pathComps dirS)
+    (P : Path) (i : Ino) (n0 : Inode)
+    (hsafe : ∀ s, CleanAbs s → pathComps dirS <+: pathComps s → s ≠ dirS → pathComps s <+: P → unpacked.contains s = true) :
+    ∀ (items : List (Str × Kind × Nat)) (skip : Option Nat) (w : World),
+      (∀ it ∈ items, CleanAbs it.1 ∧ pathComps dirS <+: pathComps it.1 ∧ (it.1 ≠ dirS → pathComps it.1 ≠ pathComps dirS)) →
+      LW dp w → Kept P i n0 w →
+      LW dp ((opaqueWalkP dirS unpacked items skip).run w).2 ∧
+        Kept P i n0 ((opaqueWalkP dirS unpacked items skip).run w).2
+  | [], _, w, _, hw, hl => ⟨hw, hl⟩
+  | (q, k, d) :: rest, skip, w, h, hw, hl => by
+    have hrest : ∀ sk w', LW dp w' → Kept P i n0 w' →
+        LW dp ((opaqueWalkP dirS unpacked rest sk).run w').2 ∧
+          Kept P i n0 ((opaqueWalkP dirS unpacked rest sk).run w').2 :=
+      fun sk w' hw' hl' => opaqueWalk_kept dp dirS unpacked hdr P i n0 hsafe rest sk w' (fun it hit => h it (by simp [hit])) hw' hl'
+    have hq := h (q, k, d) (by simp)
+    have tailcase : LW dp ((if q = dirS then opaqueWalkP dirS unpacked rest none
+         else if unpacked.contains q = true then opaqueWalkP dirS unpacked rest none
+         else do
+           let r ← sys (Sys.removeAll q)
+           if isErr r = true then pure r else opaqueWalkP dirS unpacked rest (some d)).run w).2 ∧
+        Kept P i n0 ((if q = dirS then opaqueWalkP dirS unpacked rest none
+         else if unpacked.contains q = true then opaqueWalkP dirS unpacked rest none
+         else do
+           let r ← sys (Sys.removeAll q)
+           if isErr r = true then pure r else opaqueWalkP dirS unpacked rest (some d)).run w).2 := by
+      by_cases h2 : q = dirS
+      · rw [if_pos h2]; exact hrest _ w hw hl
+      · rw [if_neg h2]
+        by_cases h3 : unpacked.contains q = true
+        · rw [if_pos h3]; exact hrest _ w hw hl
+        · rw [if_neg h3]
+          have hlex : LexArg dp q := lexArg_of hq.1 (hdr.trans hq.2.1)
+          have hstrict : pathComps q ≠ dp := by
+            intro e
+            apply hq.2.2 h2
+            have hh1 : pathComps dirS <+: dp := by rw [← e]; exact hq.2.1
+            show pathComps q = pathComps dirS
+            rw [e]
+            exact (prefix_antisymm hdr hh1)
+          have hnp : ¬ pathComps q <+: P := fun hp => h3 (hsafe q hq.1 hq.2.1 h2 hp)
+          obtain ⟨hw1, hl1⟩ := removeAll_kept dp w hw q hlex hstrict P i n0 hl hnp
+          rw [run_sys_bind]
+          split
+          · exact ⟨hw1, hl1⟩
+          · exact hrest _ _ hw1 hl1
+    simp only [opaqueWalkP]
+    cases skip with
+    | none =>
+      simp only [Bool.false_eq_true, if_false]
+      exact tailcase
+    | some sd =>
+      simp only
+      by_cases h1 : decide (d > sd) = true
+      · rw [if_pos h1]; exact hrest _ w hw hl
+      · rw [if_neg h1]; exact tailcase
+
+
+/-- **one iteration for an opaque marker keeps what the layer has provided**: a name `P` that exists when the
+    marker is processed still names the same object afterwards when every path from (below) the marker's directory
+    down to `P` is one this layer has unpacked — the marker's own name is not at or above `P` -/
+theorem iter_opaque_kept (dp : Path) (dest : Str) (o : Opts) (hd : CleanAbs dest) (hdp : pathComps dest = dp)
+    (e : Entry) (st : LState) (w : World) (hw : LW dp w)
+    (hx : e.typ ≠ .xglobal)
+    (hstage : (hasPrefix (clean e.name) whMetaPrefix && hasPrefix (clean e.name) whLinkDir && e.typ == .reg) = false)
+    (hskip : (hasPrefix (clean e.name) whMetaPrefix && decide (clean e.name ≠ whOpaqueDir)) = false)
+    (hop : base (join dest (clean e.name)) = whOpaqueDir)
+    (P : Path) (i : Ino) (n0 : Inode) (hl : Kept P i n0 w)
+    (hself : ¬ pathComps (join dest (clean e.name)) <+: P)
+    (hsafe : ∀ s, CleanAbs s → pathComps (dir (join dest (clean e.name))) <+: pathComps s →
+      s ≠ dir (join dest (clean e.name)) → pathComps s <+: P → st.unpacked.contains s = true)
+    (st' : LState) (w' : World) (hrun : (layerIterP dest o e st).run w = (.ok st', w')) :
+    LW dp w' ∧ Kept P i n0 w' := by
+  have hxg : (e.typ == Typ.xglobal) = false := by
+    cases h : e.typ <;> first | rfl | exact absurd h hx
+  simp only [layerIterP, hxg, Bool.false_eq_true, if_false, stageP, hstage, hskip] at hrun
+  rw [Prog.bind_eq, Prog.run_bind] at hrun
+  simp only [Prog.run, pure] at hrun
+  cases hg : guardName dest (clean e.name) with
+  | error out => rw [hg] at hrun; simp only [Prog.run, pure] at hrun; cases hrun
+  | ok p =>
+    rw [hg] at hrun
+    simp only at hrun
+    obtain ⟨hpe, hpc, hpin⟩ := guardName_ok dest (clean e.name) p hd hg
+    rw [hdp] at hpin
+    have hin' : dp <+: pathComps (join dest (clean e.name)) := by rw [← hpe]; exact hpin
+    rw [← hpe] at hop hself hsafe
+    rw [Prog.bind_eq, Prog.run_bind] at hrun
+    -- implied parents: created, never removed
+    have hlI := lex_impliedDirs dp dest e.name o hd hdp hin'
+    have hfI := fr_impliedDirs dp [pathComps p] w.fs dest e.name o hd (by rw [hpe]; simp)
+    have hI := LexSem.run dp _ _ w hlI hw
+    have hF := FrSem.run dp [pathComps p] w.fs hw.inv.fresh _ _ _ w hlI hfI hw (Framed.refl _ _)
+    generalize hi1 : (impliedDirsP dest (clean e.name) o).run w = r1 at hrun hI hF
+    obtain ⟨i1, w1⟩ := r1
+    simp only at hrun hI hF
+    have hw1 : LW dp w1 := hI.2.1
+    have hl1 : Kept P i n0 w1 := hl.framed hF.1 (by
+      rintro ⟨t, ht, hp⟩
+      simp only [List.mem_singleton] at ht
+      subst ht
+      exact hself hp)
+    by_cases hie : isErr i1 = true
+    · simp only [hie, if_true, Prog.run, pure] at hrun; cases hrun
+    · have hwp : hasPrefix (base p) whPrefix = true := by rw [hop]; decide
+      simp only [hie, Bool.false_eq_true, if_false, hwp, if_true, hop,
+        show hasPrefix whOpaqueDir whPrefix = true from by decide] at hrun
+      have hdrc := dir_cleanAbs hpc
+      by_cases hwd : isWithin dest (dir p) = true
+      · simp only [hwd, Bool.not_true, Bool.false_eq_true, if_false] at hrun
+        have hdrin : dp <+: pathComps (dir p) := by rw [← hdp]; exact within_of_isWithin hd hdrc.1 hwd
+        rw [run_sys_bind, lstat_world] at hrun
+        by_cases hle : isErr (step w1 (Sys.lstat (dir p))).1 = true
+        · simp only [hle, if_true, Prog.run, pure] at hrun; cases hrun
+        · simp only [hle, Bool.false_eq_true, if_false] at hrun
+          rw [run_sys_bind, listTree_world] at hrun
+          have hitems := listTree_items dp w1 hw1 (dir p) hdrc.1
+          cases ht : (step w1 (Sys.listTree (dir p))).1 with
+          | tree items =>
+            rw [ht] at hrun
+            simp only at hrun
+            rw [Prog.bind_eq, Prog.run_bind] at hrun
+            have hk := opaqueWalk_kept dp (dir p) st.unpacked hdrin P i n0 hsafe items none w1 (hitems items ht) hw1 hl1
+            generalize (opaqueWalkP (dir p) st.unpacked items none).run w1 = r2 at hrun hk
+            obtain ⟨r, w2⟩ := r2
+            simp only at hrun hk
+            by_cases hre : isErr r = true
+            · simp only [hre, if_true, Prog.run, pure] at hrun; cases hrun
+            · simp only [hre, Bool.false_eq_true, if_false, Prog.run, pure] at hrun
+              injection hrun with _ h2
+              subst h2
+              exact hk
+          | err en =>
+            rw [ht] at hrun
+            cases en <;> simp only [Prog.run, pure] at hrun <;> first
+              | (injection hrun with _ h2; subst h2; exact ⟨hw1, hl1⟩)
+              | cases hrun
+          | _ =>
+            rw [ht] at hrun
+            simp only [Prog.run, pure] at hrun
+            cases hrun
+      · simp only [hwd, Bool.not_false, if_true, Prog.run, pure] at hrun; cases hrun
+
 end GA
